@@ -119,7 +119,17 @@ def cli_args(case, root):
         if spelling == "dotted":
             return str(root / "." / r / ".." / r)
         return str(root / r)
-    args += ["--", template] + [spell(r) for r in case["roots"]] + [str(root / e) for e in case["explicit"]]
+    dirs, files = [spell(r) for r in case["roots"]], [str(root / e) for e in case["explicit"]]
+    order = case.get("input_order", "dirs_first")
+    if order == "files_first":
+        inputs = files + dirs
+    elif order == "interleaved":
+        inputs = []
+        for i in range(max(len(dirs), len(files))):
+            inputs += files[i:i + 1] + dirs[i:i + 1]
+    else:
+        inputs = dirs + files
+    args += ["--", template] + inputs
     return args
 
 
